@@ -71,8 +71,30 @@ def make_world(eng, lang, nvars=2, with_nested=True):
         g.context.add_class(G, c.name, c)
         for fld in c.fields:
             g.context.add_var(G + (c.name,), fld.name, fld)
-    w.pool = [A.get_type(), B.get_type(), C.get_type(), INT, Gg.get_type().new([A.get_type()])]
-    w.pool_names = ['Aa', 'Bb', 'Cc', 'Int', 'Gg<Aa>']
+    w.pool = [A.get_type(), B.get_type(), C.get_type(), INT, Gg.get_type().new([A.get_type()]), STR]
+    w.pool_names = ['Aa', 'Bb', 'Cc', 'Int', 'Gg<Aa>', 'String']
+    # callable declarations: top-level functions, a method of Aa, a generic function
+    ma = ast.FunctionDeclaration('ma', [ast.ParameterDeclaration('k', INT)], INT, ast.BottomConstant(INT),
+                                 ast.FunctionDeclaration.CLASS_METHOD)
+    A.functions = [ma]
+    g.context.add_func(G + ('Aa',), 'ma', ma)
+    has_default = lang in ('kotlin', 'scala')
+    fi = ast.FunctionDeclaration('fi', [ast.ParameterDeclaration('x', INT)], INT, ast.BottomConstant(INT),
+                                 ast.FunctionDeclaration.FUNCTION)
+    fb = ast.FunctionDeclaration('fb', [ast.ParameterDeclaration('a', A.get_type()),
+                                        ast.ParameterDeclaration('s', INT, default=ast.IntegerConstant(3, INT) if has_default else None)],
+                                 B.get_type(), ast.BottomConstant(B.get_type()), ast.FunctionDeclaration.FUNCTION)
+    TF = tp.TypeParameter('F_T', bound=A.get_type())
+    fg = ast.FunctionDeclaration('fg', [ast.ParameterDeclaration('t', TF)], TF, ast.BottomConstant(TF),
+                                 ast.FunctionDeclaration.FUNCTION, type_parameters=[TF])
+    FU = tp.TypeParameter('F_U')
+    gm = ast.FunctionDeclaration('gm', [], STR, ast.BottomConstant(STR), ast.FunctionDeclaration.CLASS_METHOD,
+                                 type_parameters=[FU])
+    Gg.functions = [gm]
+    g.context.add_func(G + ('Gg',), 'gm', gm)
+    w.functions = dict(fi=fi, fb=fb, fg=fg, ma=ma, gm=gm)
+    for fn in (fi, fb, fg):
+        g.context.add_func(G, fn.name, fn)
     ff = ast.FunctionDeclaration('ff', [ast.ParameterDeclaration('p0', INT)], f.get_void_type(), None,
                                  ast.FunctionDeclaration.FUNCTION)
     g.context.add_func(G, 'ff', ff)
@@ -101,6 +123,8 @@ def make_world(eng, lang, nvars=2, with_nested=True):
             g._inside_java_lambda = bool(eng.fresh_bool('inside_java_lambda'))
     # reduced built-in pools (stated bound)
     g.ret_builtin_types = [INT, STR]
+    if hasattr(f, 'get_primitive_types'):
+        g.ret_builtin_types.append(f.get_primitive_types()[2])      # java / groovy: the primitive int as well
     g.builtin_types = g.ret_builtin_types + [f.get_void_type()]
     g.function_types = []
     # reference world
@@ -156,6 +180,7 @@ def run_unit(eng, lang, unit, **kw):
     """-> list of (aspect, Ob)"""
     max_depth = kw.pop('max_depth', 6)
     sym_depth = kw.pop('sym_depth', False)
+    sym_draws = kw.pop('sym_draws', None)
     cfgkw = dict(limits__max_depth=max_depth, limits__max_var_decls=3)
     w = make_world(eng, lang, nvars=kw.pop('nvars', 2), with_nested=kw.pop('with_nested', True))
     depth0 = int(eng.fresh_int(1, 2 * max_depth + 2, 'depth')) if sym_depth else 1
@@ -165,7 +190,7 @@ def run_unit(eng, lang, unit, **kw):
     subtype = bool(eng.fresh_bool('subtype'))
     case = dict(unit=unit, expected=w.pool_names[etype_i], subtype=subtype, **describe(w))
     out = []
-    with installed(eng, max_draws=300) as rnd, config(**cfgkw):
+    with installed(eng, max_draws=600, max_sym_draws=sym_draws) as rnd, config(**cfgkw):
         try:
             res = UNITS[unit](w, etype, subtype)
             exc = None
@@ -189,7 +214,7 @@ def run_unit(eng, lang, unit, **kw):
         # the assigned value is requested at the entry depth, but for a non-void type: the dispatcher selects
         # gen_assignment for the void type only, every other generator deepens
         slack = [r for r in slack if r['type'] is None or r['type'] == w.f.get_void_type()]
-    if unit not in ('generate_expr', 'gen_variable_decl'):
+    if unit not in ('generate_expr', 'gen_variable_decl') and res is not None:
         out.append(('C18', Ob('recursion-progress|%s' % unit, not slack,
                               dict(case, requests_at_entry_depth=[str(r['type']) for r in slack][:3]))))
     if unit == 'gen_new' and depth0 + 1 > 2 * max_depth:
@@ -409,14 +434,150 @@ def c_generate_expr(w, etype, subtype, res, case):
     return out
 
 
+class WouldGenerate(Exception):
+    """the unit wants to create a new class / function (a different unit): no verdict on this path"""
+
+
+def _no_new_decls(w):
+    def stop(*a, **k):
+        raise WouldGenerate()
+    w.g._gen_matching_class = stop
+    w.g._gen_matching_func = stop
+    w.g.gen_class_decl = stop
+    w.g.gen_func_decl = stop
+
+
+def u_gen_field_access(w, etype, subtype):
+    _no_new_decls(w)
+    try:
+        return w.g.gen_field_access(etype, only_leaves=True, subtype=subtype)
+    except WouldGenerate:
+        return None
+
+
+def _receiver_type(w, recv, out, case, unit):
+    if isinstance(recv, ast.Variable):
+        rr = resolve(w, recv.name, w.g.namespace)
+        out.append(('C05', Ob('%s|receiver-resolves-in-scope' % unit, rr is not None, dict(case, receiver=recv.name))))
+        if rr is None:
+            return None
+        if w.g._inside_java_lambda and rr[0] != tuple(w.g.namespace):
+            out.append(('C05', Ob('%s|java-lambda-captures-final-only' % unit, bool(getattr(rr[1], 'is_final', False)),
+                                  dict(case, receiver=recv.name))))
+        return rr[1].get_type()
+    if isinstance(recv, Hole):
+        t = recv.t
+        if isinstance(t, tp.ParameterizedType):
+            bad = [a for a in t.type_args if a.is_type_constructor() or (hasattr(a, 'is_primitive') and a.is_primitive())]
+            out.append(('C01', Ob('%s|receiver-type-arguments-usable' % unit, not bad,
+                                  dict(case, receiver_type=str(t)))))
+        return t
+    return None
+
+
+def c_gen_field_access(w, etype, subtype, res, case):
+    out = []
+    if res is None:
+        return out
+    ok_shape = isinstance(res, ast.FieldAccess)
+    out.append(('C05', Ob('gen_field_access|returns-field-access', ok_shape, case)))
+    if not ok_shape:
+        return out
+    rt = _receiver_type(w, res.expr, out, case, 'gen_field_access')
+    if rt is None:
+        return out
+    cls = w.classes.get(getattr(rt, 'name', None))
+    fld = next((x for x in cls.fields if x.name == res.field), None) if cls is not None else None
+    out.append(('C05', Ob('gen_field_access|receiver-class-has-the-field', fld is not None,
+                          dict(case, receiver_type=str(rt), field=res.field))))
+    if fld is None:
+        return out
+    ft = fld.get_type()
+    if isinstance(rt, tp.ParameterizedType) and cls.type_parameters:
+        ft = tp.substitute_type(ft, {p: a for p, a in zip(cls.type_parameters, rt.type_args)})
+    ok = assignable(w, ft, etype) if subtype else w.ref.snap(ft) == w.ref.snap(etype)
+    out.append(('C01', Ob('gen_field_access|field-type-fits|subtype=%d' % subtype, ok,
+                          dict(case, field=res.field, field_type=str(ft)))))
+    return out
+
+
+def u_gen_func_call(w, etype, subtype):
+    _no_new_decls(w)
+    try:
+        return w.g._gen_func_call(etype, only_leaves=True, subtype=subtype)
+    except WouldGenerate:
+        return None
+
+
+def c_gen_func_call(w, etype, subtype, res, case):
+    out = []
+    if res is None:
+        return out
+    ok_shape = isinstance(res, ast.FunctionCall)
+    out.append(('C05', Ob('gen_func_call|returns-call', ok_shape, case)))
+    if not ok_shape:
+        return out
+    fn = None
+    m = {}
+    if res.receiver is None:
+        fn = w.functions.get(res.func) if res.func != 'ma' else None
+        out.append(('C05', Ob('gen_func_call|callee-visible-from-scope', fn is not None and fn.name in ('fi', 'fb', 'fg'),
+                              dict(case, callee=res.func))))
+    else:
+        rt = _receiver_type(w, res.receiver, out, case, 'gen_func_call')
+        cls = w.classes.get(getattr(rt, 'name', None)) if rt is not None else None
+        fn = next((x for x in (cls.functions if cls else []) if x.name == res.func), None)
+        if fn is None and cls is not None and cls.name == 'Bb':
+            fn = w.functions['ma'] if res.func == 'ma' else None       # inherited from Aa
+        out.append(('C05', Ob('gen_func_call|receiver-class-has-the-method', fn is not None,
+                              dict(case, receiver_type=str(rt), callee=res.func))))
+    if fn is None:
+        return out
+    # explicit type arguments: one per type parameter, within the bound
+    if fn.type_parameters:
+        out.append(('C01', Ob('gen_func_call|one-type-argument-per-parameter', len(res.type_args) == len(fn.type_parameters), case)))
+        m = {p: a for p, a in zip(fn.type_parameters, res.type_args)}
+        for p, a in m.items():
+            if p.bound is not None:
+                out.append(('C01', Ob('gen_func_call|type-argument-within-bound', assignable(w, a, p.bound),
+                                      dict(case, type_argument=str(a), bound=str(p.bound)))))
+            out.append(('C01', Ob('gen_func_call|type-argument-usable',
+                                  not a.is_type_constructor() and not (hasattr(a, 'is_primitive') and a.is_primitive()),
+                                  dict(case, type_argument=str(a)))))
+    else:
+        out.append(('C01', Ob('gen_func_call|no-type-arguments-for-plain-function', not res.type_args, case)))
+    # arity: every parameter without default gets exactly one positional argument, in order
+    required = [p for p in fn.params if p.default is None and not p.vararg]
+    positional = [a for a in res.args if getattr(a, 'name', None) is None]
+    named = [a for a in res.args if getattr(a, 'name', None) is not None]
+    out.append(('C05', Ob('gen_func_call|arity-admitted', len(positional) == len(required) and
+                          all(a.name in [p.name for p in fn.params if p.default is not None] for a in named),
+                          dict(case, callee=fn.name, positional=len(positional), named=[a.name for a in named]))))
+    for p, a in zip(required, positional):
+        want = tp.substitute_type(p.get_type(), m)
+        if isinstance(a.expr, Hole) and a.expr.t is not None:
+            out.append(('C01', Ob('gen_func_call|argument-fits-parameter', assignable(w, a.expr.t, want),
+                                  dict(case, parameter=p.name, parameter_type=str(want), argument_type=str(a.expr.t)))))
+    rett = tp.substitute_type(fn.get_type(), m)
+    ok = assignable(w, rett, etype) if subtype else w.ref.snap(rett) == w.ref.snap(etype)
+    out.append(('C01', Ob('gen_func_call|result-type-fits|subtype=%d' % subtype, ok,
+                          dict(case, callee=fn.name, result_type=str(rett)))))
+    return out
+
+
 UNITS = dict(gen_variable=u_gen_variable, gen_assignment=u_gen_assignment, gen_conditional=u_gen_conditional,
-             gen_new=u_gen_new, gen_variable_decl=u_gen_variable_decl, generate_expr=u_generate_expr)
+             gen_new=u_gen_new, gen_variable_decl=u_gen_variable_decl, generate_expr=u_generate_expr,
+             gen_field_access=u_gen_field_access, gen_func_call=u_gen_func_call)
 CHECKS = dict(gen_variable=c_gen_variable, gen_assignment=c_gen_assignment, gen_conditional=c_gen_conditional,
-              gen_new=c_gen_new, gen_variable_decl=c_gen_variable_decl, generate_expr=c_generate_expr)
+              gen_new=c_gen_new, gen_variable_decl=c_gen_variable_decl, generate_expr=c_generate_expr,
+              gen_field_access=c_gen_field_access, gen_func_call=c_gen_func_call)
 FUNCS = dict(gen_variable=[Generator.gen_variable], gen_assignment=[Generator.gen_assignment, Generator._get_assignable_vars,
                                                                      Generator._get_classes_with_assignable_fields],
              gen_conditional=[Generator.gen_conditional], gen_new=[Generator.gen_new, Generator._get_subclass],
-             gen_variable_decl=[Generator.gen_variable_decl], generate_expr=[Generator.generate_expr, Generator.get_generators])
+             gen_variable_decl=[Generator.gen_variable_decl], generate_expr=[Generator.generate_expr, Generator.get_generators],
+             gen_field_access=[Generator.gen_field_access, Generator._get_matching_objects, Generator._get_matching_class],
+             gen_func_call=[Generator._gen_func_call, Generator._get_matching_function_declarations,
+                            Generator._get_matching_objects, Generator._is_sigtype_compatible])
 
 
 def harness(eng, lang, unit, aspect, **kw):
@@ -434,5 +595,6 @@ STUBS = ['src.utils.random -> symbolic RNG (every outcome of every draw)',
          'Generator built-in pools reduced to {Int, String, void}, no function types',
          'for the dispatcher unit: every gen_* sub-generator -> recorder returning a hole']
 OUT = ('composition of the unit contracts into whole-program well-typedness (structural induction on the generated tree, '
-       'paper argument); Context bookkeeping across units; gen_func_call / gen_field_access / gen_lambda / gen_is_expr / '
-       'gen_class_decl units (not built); worlds beyond the one described; termination of the real recursion')
+       'paper argument); Context bookkeeping across units; gen_lambda / function references / gen_is_expr / gen_class_decl / '
+       'array, equality, comparison and logical generators (units not built); paths on which gen_field_access / _gen_func_call '
+       'would create a new class or function give no verdict; worlds beyond the one described; termination of the real recursion')
